@@ -83,4 +83,15 @@ CHECKS["C17"] = {
     "note": "The FMM evaluators read the global quadrature order; the dense reference uses the same global order (the coupling itself is C18's matter). The shipped reference vectors (tolerance 2e-3 with a real FMM) are not replayed: an exact backend makes them redundant.",
 }
 
+CHECKS["C10"] = {
+    "technique": "pointwise reference monitor on barycentric sub-triangles + nodal-value walker + mass-matrix differential against quadrature of the evaluated bases",
+    "text": "On non-uniform closed and open meshes (vertex valences 3-6 quick, more in thorough) and generated space options: (1) a function and the same coefficient vector in space.barycentric_representation() are evaluated at degree-exact quadrature points of all six sub-triangles, located geometrically in both grids, and must agree to 1e-12 for DP0, P1, RWG, SNC; (2) DUAL0 functions must be the indicators of the barycentric elements at their vertex, DUAL1 functions must take 1 / 1/2 / 1/n / 0 at the barycentric nodes (n by brute force) and be continuous; (3) every mixed mass matrix identity(primal|dual, ., dual|primal) incl. BC/RBC must equal the integral of the product of the evaluated bases to 1e-11.",
+    "note": "Bases are evaluated through space.evaluate and dof_transformation on each space's own grid; point location is geometric (no numbering table of the library is used).",
+}
+CHECKS["C18"] = {
+    "technique": "history monitor: seeded random API-call histories, each observable compared with the same configuration recomputed in isolation (and a sample in a fresh interpreter); state-based classifier of deviations",
+    "text": "Random histories over {set global quadrature/FMM parameters, create operator (dense, sparse, singular part, FMM; explicit parameters or None), weak_form, strong_form, potential evaluation, mass_matrix, clear_fmm_cache, barycentric refinement} on two grids, three order pairs and eight operator configurations collide caches on purpose. Every observable is compared to 1e-12 with the value of the same configuration built from new objects with the effective parameter values set globally and empty caches (the history's own caches are saved/restored around the reference computation); a sample is recomputed in a fresh interpreter. weak_form() identity and single-vs-double precision are checked. Deviations are classified from the history state (lazy binding of globals, FMM evaluators reading the global order, FMM cache key) so that recorded findings never hide an unclassified history dependence.",
+    "note": "FMM through the exact-summation stand-in. 'Configuration' = spaces, wavenumber, assembler, precision and the effective parameter values at construction.",
+}
+
 NOT_APPLICABLE = {}
